@@ -6,6 +6,7 @@
 
 mod lr;
 mod nlc;
+mod width;
 mod rng;
 mod util;
 
@@ -24,6 +25,7 @@ fn main() {
         "lr" => lr::main(&args[2..]),
         "lr-child" => lr::child_main(),
         "nlc" => nlc::main(&args[2..]),
+        "width" => width::main(&args[2..]),
         x => {
             eprintln!("unknown subcommand {}", x);
             2
